@@ -312,6 +312,31 @@ std::int64_t ttl_seconds_remaining(const std::chrono::steady_clock::time_point& 
     return std::chrono::duration_cast<std::chrono::seconds>(expires_at - now).count();
 }
 
+// Field values may span several lines (chunk list, advertised endpoints, warnings). The framing is
+// line based, so every line after the first is sent as a continuation line that starts with a tab,
+// and CR / backslash are escaped; ControlClient reverses both.
+std::string encode_field_value(std::string_view value) {
+    std::string encoded;
+    encoded.reserve(value.size());
+    for (const char ch : value) {
+        switch (ch) {
+            case '\\':
+                encoded.append("\\\\");
+                break;
+            case '\r':
+                encoded.append("\\r");
+                break;
+            case '\n':
+                encoded.append("\n\t");
+                break;
+            default:
+                encoded.push_back(ch);
+                break;
+        }
+    }
+    return encoded;
+}
+
 ControlFields make_ok(std::string_view code = "OK") {
     ControlFields fields;
     fields["CODE"] = std::string(code);
@@ -655,7 +680,7 @@ private:
         std::ostringstream oss;
         oss << "STATUS:" << (success ? "OK" : "ERROR") << "\n";
         for (const auto& [key, value] : fields) {
-            oss << key << ':' << value << "\n";
+            oss << key << ':' << encode_field_value(value) << "\n";
         }
         oss << "\n";
         const auto response = oss.str();
